@@ -868,6 +868,15 @@ theorem disable_disable (p : Proj) (a b : List String) :
     withServicesDisabled (withServicesDisabled p a) b = withServicesDisabled p (a ++ b) := by
   simp [withServicesDisabled, List.foldl_append]
 
+/-- pruning twice is pruning once -/
+theorem prune_idempotent (p : Proj) :
+    LookEq (withoutUnnecessaryResources (withoutUnnecessaryResources p)).networks (withoutUnnecessaryResources p).networks ∧
+    LookEq (withoutUnnecessaryResources (withoutUnnecessaryResources p)).volumes (withoutUnnecessaryResources p).volumes ∧
+    LookEq (withoutUnnecessaryResources (withoutUnnecessaryResources p)).secrets (withoutUnnecessaryResources p).secrets ∧
+    LookEq (withoutUnnecessaryResources (withoutUnnecessaryResources p)).configs (withoutUnnecessaryResources p).configs := by
+  refine ⟨fun k => ?_, fun k => ?_, fun k => ?_, fun k => ?_⟩ <;>
+    simp only [withoutUnnecessaryResources, lookup_pick] <;> split <;> simp_all
+
 /-- `WithProfiles` repartitions **from the union of both sets**: the result depends on the services known to the project
 and not on how they are currently split, so applying it after another `WithProfiles` forgets the earlier one -/
 theorem profiles_forgets_partition {p : Proj} (h : Partition p) (P Q : List String) :
